@@ -35,11 +35,19 @@ type c08Case struct {
 	// Opp: opportunistic grafting is live: the peers with an odd index have application score 2, the threshold is 1 and
 	// the check runs every second heartbeat (the median of a mesh of zero-score peers is below the threshold)
 	Opp bool `json:"opportunistic,omitempty"`
+	// Over: the history starts with a join followed by a GRAFT from every peer (all connections are outbound, so the mesh
+	// grows past Dhi with no back-off recorded yet) and a heartbeat: the first back-off ever recorded for the topic is
+	// recorded by the heartbeat that also looks for graft candidates
+	Over bool `json:"over,omitempty"`
 }
 
 func c08Gen(rt *rapid.T) c08Case {
 	var c c08Case
 	c.Opp = rapid.IntRange(0, 2).Draw(rt, "opp") == 0
+	c.Over = rapid.IntRange(0, 3).Draw(rt, "over") == 0
+	if c.Over && rapid.Bool().Draw(rt, "overOpp") {
+		c.Opp = true
+	}
 	c.D = rapid.IntRange(2, 4).Draw(rt, "D")
 	c.Dlo = rapid.IntRange(1, c.D).Draw(rt, "Dlo")
 	c.Dhi = rapid.IntRange(c.D, c.D+3).Draw(rt, "Dhi")
@@ -52,6 +60,9 @@ func c08Gen(rt *rapid.T) c08Case {
 		c.Queue = rapid.IntRange(1, 3).Draw(rt, "queue")
 	}
 	c.Peers = rapid.IntRange(1, 8).Draw(rt, "peers")
+	if c.Over {
+		c.Peers = rapid.IntRange(min(c.Dhi+1, 8), 8).Draw(rt, "peersOver")
+	}
 	c.Topics = rapid.IntRange(1, 2).Draw(rt, "topics")
 	// populate, join
 	for p := 1; p <= c.Peers; p++ {
@@ -59,6 +70,16 @@ func c08Gen(rt *rapid.T) c08Case {
 		if c.Topics > 1 && rapid.Bool().Draw(rt, "sub1") {
 			c.Ops = append(c.Ops, c08Op{Op: "sub", P: p, T: 1})
 		}
+	}
+	if c.Over {
+		for i := rapid.IntRange(0, 1).Draw(rt, "hbBefore"); i > 0; i-- {
+			c.Ops = append(c.Ops, c08Op{Op: "hb", P: 1, N: 1})
+		}
+		c.Ops = append(c.Ops, c08Op{Op: "join", P: 1, T: 0})
+		for p := 1; p <= c.Peers; p++ {
+			c.Ops = append(c.Ops, c08Op{Op: "graft", P: p, T: 0})
+		}
+		c.Ops = append(c.Ops, c08Op{Op: "hb", P: 1, N: rapid.IntRange(1, 2).Draw(rt, "hbAfter")})
 	}
 	n := rapid.IntRange(4, 50).Draw(rt, "nops")
 	kinds := []string{"join", "leave", "hb", "hb", "hb", "hb", "graft", "graft", "graft", "prune", "prune", "advto", "advto", "advto", "adv", "depart", "return", "drain", "drain", "fanoutpub"}
@@ -418,9 +439,19 @@ func c08RunInBubble(t *testing.T, c c08Case, res *vfResult) {
 			for i := 0; i < op.N; i++ {
 				pre := snap()
 				now := time.Now()
+				mark := len(n.raw.snapshot())
 				n.heartbeat()
 				// members the heartbeat removed while they stay connected were pruned by us now
 				post := snap()
+				// (also one that the same heartbeat took back: the mesh looks unchanged, the PRUNE trace event tells)
+				for _, e := range n.raw.snapshot()[mark:] {
+					if e.Kind == "prune" && pre.mesh[e.Topic][e.Peer] && post.conn[e.Peer] {
+						merge(c08Key{e.Topic, e.Peer}, pruneB)
+						if post.mesh[e.Topic][e.Peer] {
+							res.label("pruned-and-regrafted-in-one-heartbeat")
+						}
+					}
+				}
 				for tn, m := range pre.mesh {
 					for p := range m {
 						if !post.mesh[tn][p] && post.conn[p] {
@@ -455,6 +486,9 @@ func c08RunInBubble(t *testing.T, c c08Case, res *vfResult) {
 		res.label("control-dropped-and-retried")
 	}
 	res.label(fmt.Sprintf("autodrain:%v", c.AutoDrain))
+	if c.Over {
+		res.label("over-Dhi-before-any-backoff")
+	}
 }
 
 func TestVfC08Backoff(t *testing.T) {
